@@ -27,13 +27,21 @@ HDR = "sMsgHeader"
 
 
 # ------------------------------------------------------------------------------------------------ building the real input
-def build_iface(desc):
-    """The real kojentypes.Interface for a description (only the public API of kojentypes is used)."""
+def build_iface(desc, hold_back=None, between=None):
+    """The real kojentypes.Interface for a description (only the public API of kojentypes is used).
+    hold_back = (struct name, k): the last k members of that struct are added only after everything else exists and after
+    between(iface) has run (an interface that is built, generated from, extended and generated from again is still the interface
+    of the description: the objects are the caller's, kojen may not remember anything about their earlier state)."""
     iface = kojentypes.Interface(desc["iname"], desc["preamble"])
     objs = {}
+    late = None
     for s in desc["structs"]:
         st = kojentypes.Struct(s["name"])
-        _add_members(st, s["members"], objs)
+        mem = s["members"]
+        if hold_back and hold_back[0] == s["name"] and 0 < hold_back[1] <= len(mem):
+            late = (st, mem[len(mem) - hold_back[1]:])
+            mem = mem[:len(mem) - hold_back[1]]
+        _add_members(st, mem, objs)
         objs[s["name"]] = st
         iface.AddStruct(st)
     for m in desc["msgs"]:
@@ -47,6 +55,10 @@ def build_iface(desc):
         iface.AddEnum(en)
     for n, v in desc.get("defines", []):
         iface.AddHashDefine(n, v)
+    if late:
+        if between:
+            between(iface)
+        _add_members(late[0], late[1], objs)
     return iface
 
 
@@ -390,6 +402,8 @@ def gen_default(rng, ty, mode="mixed"):
 def ident(rng, prefix, used):
     while True:
         n = prefix + "".join(rng.choice(_SYL) for _ in range(rng.randint(1, 2))) + str(rng.randint(0, 99))
+        if rng.random() < 0.05:      # a long identifier (formatting helpers pad declarations to fixed columns)
+            n += "".join(rng.choice(_SYL).capitalize() for _ in range(rng.randint(8, 24)))
         if n not in used:
             used.add(n)
             return n
